@@ -170,6 +170,24 @@ impl FlushWorker {
 
                         // Only update segment_ids after successful verification
                         let segment_name = format!("{:05}", segment_id);
+                        // Readers may have looked at this segment while it was still in flight and
+                        // cached partially written artifacts (zone metadata, column handles, index
+                        // catalog, decompressed blocks). Drop them before the segment becomes live.
+                        {
+                            use crate::engine::core::read::cache::{
+                                GlobalColumnBlockCache, GlobalColumnHandleCache,
+                                GlobalIndexCatalogCache, GlobalZoneIndexCache, GlobalZoneSurfCache,
+                            };
+                            use crate::engine::core::read::cache::global_enum_cache::GlobalEnumCache;
+                            use crate::engine::core::read::cache::global_zone_xor_filter_cache::GlobalZoneXorFilterCache;
+                            GlobalEnumCache::instance().invalidate_segment(&segment_name);
+                            GlobalZoneXorFilterCache::instance().invalidate_segment(&segment_name);
+                            GlobalColumnHandleCache::instance().invalidate_segment(&segment_name);
+                            GlobalZoneSurfCache::instance().invalidate_segment(&segment_name);
+                            GlobalZoneIndexCache::instance().invalidate_segment(&segment_name);
+                            GlobalIndexCatalogCache::instance().invalidate_segment(&segment_name);
+                            GlobalColumnBlockCache::instance().invalidate_segment(&segment_name);
+                        }
                         {
                             let mut segs = segment_ids.write().unwrap();
                             if !segs.contains(&segment_name) {
